@@ -27,6 +27,8 @@ class JsonVariantCopier {
 inline bool copyVariant(JsonVariant dst, JsonVariantConst src) {
   if (dst.isUnbound())
     return false;
+  if (VariantAttorney::getData(dst) == VariantAttorney::getData(src))
+    return true;  // self-assignment: set() would release the value first
   JsonVariantCopier copier(dst);
   return accept(src, copier);
 }
